@@ -234,17 +234,23 @@ func (p *vProc) Process(ctx context.Context, recs []opencdc.Record) []sdk.Proces
 			}
 		}
 		lin := vLineage(r)
+		// every record a stage lets through carries that stage's stamp
+		stamp := "st." + p.id
 		piece := func(k int) opencdc.Record {
 			c := r.Clone()
 			c.Metadata["lineage"] = lin + "/" + strconv.Itoa(k)
+			c.Metadata[stamp] = "1"
 			return c
 		}
 		switch kind {
 		case vkSingle:
-			out = append(out, sdk.SingleRecord(r))
+			c := r.Clone()
+			c.Metadata[stamp] = "1"
+			out = append(out, sdk.SingleRecord(c))
 		case vkSingleRepos:
 			c := r.Clone()
 			c.Position = opencdc.Position("x" + lin)
+			c.Metadata[stamp] = "1"
 			out = append(out, sdk.SingleRecord(c))
 		case vkFilter:
 			w.replaceLeaf(lin, nil)
@@ -366,6 +372,10 @@ func (d *vDest) Write(ctx context.Context, recs []opencdc.Record) error {
 					}
 				}
 				verifAssert(isLeaf, "c08-delivered-record-is-not-a-processor-output")
+				// ... and it is the version every processor stage produced, not a stale copy
+				for _, pr := range w.procs {
+					verifAssert(r.Metadata["st."+pr.id] == "1", "c08-delivered-record-skipped-a-processor")
+				}
 			}
 			for _, prev := range d.writes {
 				verifAssert(prev != k, "c05-record-written-twice")
